@@ -10,7 +10,7 @@ INFO = {
                "new entry is added unconditionally and last (so it shadows, and is never overwritten by, an older "
                "entry of the same name); with_inupt makes [old input] ++ [old parents] the new parent chain, "
                "unconditionally; set/define evaluate their body in the derived context and their name/value "
-               "arguments in the incoming one; the pipe threads each stage's value through with_inupt. The --set stage is the outermost stage of the pipeline, so --set bindings are in scope for --split-by, --filter and every --select.",
+               "arguments in the incoming one; the pipe threads each stage's value through with_inupt. The --set stage is the outermost stage of the pipeline, so --set bindings are in scope for --split-by, --filter and every --select. Every Clone impl of the data types is field-wise; a --set macro keeps the getter parsed from its body; Context::build is the object of the selections whenever there are selections.",
     "not_decided": "The lookup semantics of :n / @n / ^ on run-time values (substitution equivalence as a whole).",
     "trusted": ["sa/tables/context_frame.toml", "std collections: push/insert add, clone copies"],
 }
@@ -115,6 +115,9 @@ def run(ctx, rep):
                     r.bad(key, "`%s` is tabled as reset-to-empty in %s, found origins %s" % (fname, ctor, sorted(map(str, atoms))[:4]), where)
             elif want in ("extend", "parents"):
                 _extend(r, r2, key, want, b, pr, rv["ops"][fi], bb, idx, fi, fi_input, fields, lib)
+    common.clone_faithful(rep, lib)
+    macro_unevaluated(rep, lib)
+    build_shape(rep, lib)
     # ------------------------------------------------------------ BODY-IN-NEW / PIPE
     r3 = rep.rule("C12-BODY-IN-NEW", "set / define evaluate their last argument in the context returned by "
                   "with_variable / with_definition and their first two arguments in the incoming context", floor=2,
@@ -433,3 +436,77 @@ def _guarded_in_loop(b, c):
     # from the Some target, can we get back to the header without passing the push?
     reach = b.reachable(some_t[0], avoid={c.bb})
     return h in reach
+
+
+def macro_unevaluated(rep, lib):
+    """A macro given with --set @name=body is kept as its parsed body."""
+    r = rep.rule("C12-MACRO-BODY", "PreSet::from_str stores, for `@name=body`, the getter read_getter parsed from the "
+                 "body itself (not a value computed from it, not another getter): a macro is substituted, and its body "
+                 "is evaluated in the context of every use", floor=1,
+                 analysis="A4 provenance of the payload of Value::Macro")
+    b = lib.bodies.get("<pre_sets::PreSet as std::str::FromStr>::from_str")
+    if b is None:
+        r.missing("PreSet::from_str")
+        return r
+    pr = Prov(b, LOOKX)
+    aggs = [(bb, idx, rv) for bb, idx, place, rv, _ in b.assignments()
+            if rv["k"] == "agg" and rv.get("adt") == "pre_sets::Value" and rv.get("variant_name") == "Macro"]
+    if not aggs:
+        r.missing("a Value::Macro aggregate in PreSet::from_str")
+        return r
+    for n, (bb, idx, rv) in enumerate(aggs):
+        at = [a for a in pr._rv_origins_at({"k": "use", "op": rv["ops"][0]}, (), bb, idx, set()) if a[0] not in ("via", "op")]
+        other = [a for a in at if not (a[0] == "call" and (b.call_at[a[1]].name or "").endswith("selection::read_getter"))]
+        key = "from_str#Value::Macro[%d]" % n
+        if at and not other:
+            r.ok(key, "the getter parsed by read_getter", b.where(bb))
+        else:
+            r.bad(key, "the macro's body is replaced by something else than what read_getter parsed (%s): the macro is "
+                  "no longer its text evaluated where it is used" % sorted(
+                      (b.call_at[a[1]].name if a[0] == "call" else str(a[:2])) for a in other)[:3], b.where(bb))
+    return r
+
+
+def build_shape(rep, lib, rid="C12-BUILD-SHAPE"):
+    """Context::build: the row is the object of the selected values whenever there are selections."""
+    from lib.peval import PE
+    r = rep.rule(rid, "Context::build returns the input value exactly when there is no selection; with selections it "
+                 "returns the object built from them - also when every selected value is absent (an empty object), "
+                 "never the raw input", floor=2, analysis="A5 partial evaluation of Context::build with the emptiness "
+                                                          "of self.results (and of the object being built) seeded")
+    b = lib.bodies.get("processor::Context::build")
+    jv = lib.adts.get("json_value::JsonValue")
+    if b is None or not jv:
+        r.missing("Context::build")
+        return r
+    obj = [v["name"] for v in jv["variants"]].index("Object")
+    for label, have_sel in (("no selection", False), ("selections, every value absent", True)):
+        def model(c, av, envv, pe, have_sel=have_sel):
+            n = c.name or ""
+            ty0 = c.args[0].get("place", {}).get("ty", "") if c.args else ""
+            on_results = "std::vec::Vec<(std::rc::Rc<std::string::String>" in ty0
+            if n.endswith("::is_empty"):
+                return (True, ("b", (not have_sel) if on_results else True))
+            if n.endswith("::len"):
+                return (True, ("i", (1 if have_sel else 0) if on_results else 0))
+            return None
+        try:
+            res = PE(b, model, eq_ok=common.derived_eq_ok(lib), crate=lib).run()
+        except RuntimeError:
+            r.bad("build[%s]" % label, "not evaluated", b.where())
+            continue
+        vals = [v for _, v in res.returns]
+        is_obj = [v is not None and v[0] == "adt" and v[1] == obj for v in vals]
+        key = "build[%s]" % label
+        if not vals:
+            r.bad(key, "no return reached (unrecognised idiom)", b.where())
+        elif have_sel and all(is_obj):
+            r.ok(key, "JsonValue::Object(..)", b.where())
+        elif have_sel:
+            r.bad(key, "with selections whose values are all absent the row is not the (empty) object of the "
+                  "selections: unselected members of the input leak into the row", b.where())
+        elif any(is_obj):
+            r.bad(key, "without any selection the row is a constructed object, not the input value", b.where())
+        else:
+            r.ok(key, "the input value", b.where())
+    return r
